@@ -20,6 +20,7 @@ func c17(c *eng.Ctx, r *eng.Report) {
 		"R17.3 PackForCast never returns more than the per-block limit, checkNonce sorts first, never packs a transaction on the `expected < nonce` edge, and every transaction that advances its sender's expected nonce is packed; " +
 		"R17.4 every field of TxPool/simpleContainer is of a thread-safe type, immutable after construction, or accessed only with its mutex held (lockset over all access sites, helper functions checked at their call sites). " +
 		"R17.8 the pending container's remove takes out every hash it is handed: on every path to a return the whole parameter list — not a window of it — has been passed to the map's Removes (directly or through a helper of the container that does so); a transaction that is marked executed but stays pending is packed again; " +
+		"R17.10 whether a transaction re-enters the pool depends on the pool alone: (*TxPool).add — the path UnMarkExecuted uses for the transactions of a removed block — and the service functions under it consult no account state (no AccountDBManager, no AccountDB getter); while a block is being removed the latest state is still the state after it, in which each of its nonce-checked transactions looks already used, so a state-dependent admission test there drops them: neither executed nor pending; " +
 		"R17.9 MarkExecuted processes every block it is handed: no return of MarkExecuted depends on the pool's own state (a remembered `last marked` block, a cache) — after a reorg that comes back to the same block the second MarkExecuted must write the executed records again, UnMarkExecuted having deleted them; " +
 		"R17.6 what the pool iterates over is one atomic snapshot of the pending map: every simpleContainer method that hands out a slice returns the result of a single call on the underlying map (possibly re-sliced), never a slice assembled from separate per-key lookups — between listing the keys and looking them up MarkExecuted or an eviction may remove an entry, and the hole is a nil the packer type-asserts; " +
 		"R17.7 the executed-record batch, which lives as long as the pool, is Reset() after every Write() on every path (a batch that keeps its content replays old executed marks with the next block, undoing an UnMarkExecuted); " +
@@ -81,6 +82,7 @@ func c17(c *eng.Ctx, r *eng.Report) {
 	c17Snapshot(c, r)
 	c17RemoveAll(c, r)
 	c17MarkEveryBlock(c, r)
+	c17ReAddSeesOnlyThePool(c, r)
 	r.Min("R17.7", 3)
 	batchResetAs(c, r, "R17.7", "service", 2)
 }
@@ -779,4 +781,40 @@ func c17MarkEveryBlock(c *eng.Ctx, r *eng.Report) {
 		}
 	}
 	r.Check(bad == "", rule, "MarkExecuted:every-block", c.Pos(fn.Pos()), "no return depends on the pool's own state", "MarkExecuted returns at "+bad+", a condition on what the pool remembers rather than on the block it was handed: in the history MarkExecuted(B), UnMarkExecuted(B), MarkExecuted(B) — a one-block reorg that comes back — the second mark does nothing, B's transactions keep no executed record, stay pending and are packed again")
+}
+
+// c17ReAddSeesOnlyThePool: see R17.10.
+func c17ReAddSeesOnlyThePool(c *eng.Ctx, r *eng.Report) {
+	const rule = "R17.10"
+	r.Min(rule, 1)
+	add := c.Func("service", "(*TxPool).add")
+	un := c.Func("service", "(*TxPool).UnMarkExecuted")
+	if !r.Anchor(add != nil && un != nil, rule, "service.(*TxPool).add / UnMarkExecuted") {
+		return
+	}
+	uses := false
+	for _, s := range eng.Sites(un) {
+		if s.Common().StaticCallee() == add {
+			uses = true
+		}
+	}
+	if !r.Anchor(uses, rule, "UnMarkExecuted re-adds through (*TxPool).add") {
+		return
+	}
+	cone := c.ConeOf([]*ssa.Function{add}, func(fn *ssa.Function) bool { return strings.HasSuffix(eng.FuncPkgPath(fn), "/src/service") })
+	bad := ""
+	n := 0
+	for _, fn := range cone.Sorted() {
+		if fn.Blocks == nil || !strings.HasSuffix(eng.FuncPkgPath(fn), "/src/service") {
+			continue
+		}
+		n++
+		for _, s := range eng.Sites(fn) {
+			nm := s.Name()
+			if strings.Contains(nm, "AccountDBManager") || strings.Contains(nm, "storage/account.AccountDB).Get") {
+				bad = eng.FuncName(fn) + " calls " + nm + " at " + c.Pos(s.Pos())
+			}
+		}
+	}
+	r.Check(bad == "", rule, "re-add:pool-only", c.Pos(add.Pos()), fmt.Sprintf("%d service functions under (*TxPool).add, none reads account state", n), "the admission path shared by submission and by UnMarkExecuted consults account state ("+bad+"): blockChain.remove calls UnMarkExecuted while the latest state is still the one after the removed block, so the block's own nonce-checked transactions are judged against nonces they themselves advanced and are refused — after the reorg they are neither marked executed nor pending, and can never be packed again")
 }
